@@ -147,17 +147,18 @@ theorem app_cursor (X : Ctx) (s : Sys) (hi : Inv X s) (hc : CursorAs s.t s.v.cur
     have hs : sameSize s.v cols rows = true := by simpa [isFrame] using hf
     simp only [sysStep, endFrame, hs, if_true]; rfl
 
-/-- **The cursor clause through every step, size changes included.**  `CurInv` = the terminal shows
-    the cursor as last rendered, or a refresh of a non-empty screen is pending and only the cursor's
+/-- **The cursor clause through every step, size changes included — to any size.**  `CurInv` = the
+    terminal shows the cursor as last rendered, or a refresh is pending and only the cursor's
     visibility is known (the terminal may have moved it when its size changed).  Every step keeps
     `CurInv`, and after every frame — in particular after the first frame that follows a size change,
-    whatever the terminal did with the cursor — the cursor is exactly as last requested. -/
-theorem app_cursor_always (X : Ctx) (s : Sys) (hi : Inv X s) (hc : CurInv s) (op : SysOp) (hok : OpOk X s op)
-    (hsz : ∀ cols rows g, op = .resize cols rows g → sameSize s.v cols rows = false → 1 ≤ cols ∧ 1 ≤ rows) :
+    whatever the terminal did with the cursor, and also when the new screen is empty (0 columns or
+    0 rows: then a visible cursor cannot be inside it, `CursorIn` asks for a hidden one, and the frame
+    hides it through the writer's cursor-only branch) — the cursor is exactly as last requested. -/
+theorem app_cursor_always (X : Ctx) (s : Sys) (hi : Inv X s) (hc : CurInv s) (op : SysOp) (hok : OpOk X s op) :
     CurInv (sysStep X s op) ∧
     (isFrame s op = true → CursorAs (sysStep X s op).t (sysStep X s op).v.cursorLast ∧
                            (sysStep X s op).v.cursorLast = s.v.cursorNext) := by
-  obtain ⟨h1, h2⟩ := cursor_step_all X s hi hc op hok hsz
+  obtain ⟨h1, h2⟩ := cursor_step_all X s hi hc op hok
   refine ⟨h1, fun hf => ⟨h2 hf, ?_⟩⟩
   cases op with
   | draw d => simp [isFrame] at hf
@@ -210,5 +211,13 @@ example : RunOk exX (Sys.init 3 1) exRun := by
     subst hr
     exact ⟨rfl, by simp [WFRow]⟩
   · intro h; exact absurd h (by decide)
+
+/-- The cursor clause on an empty screen: the cursor is visible, the terminal shrinks to 0×1, the
+    application hides the cursor (a visible one cannot be inside), `Render`: hidden on the terminal. -/
+example :
+    let run0 : List SysOp := [.draw (.showCursor (Win.root 0 0 3 1) 1 0 2), .render, .resize 0 1 [[]], .draw .hideCursor, .render]
+    (sysRun exX (Sys.init 3 1) (run0.take 2)).t.cursorVisible = true ∧
+    (sysRun exX (Sys.init 3 1) run0).t.cursorVisible = false ∧
+    (sysRun exX (Sys.init 3 1) run0).t.bad = none ∧ (sysRun exX (Sys.init 3 1) run0).v.scr.cols = 0 := by decide
 
 end VaxisModel.Props.C01App
